@@ -306,7 +306,7 @@ func Unit(args []string) error {
 func observations() []string {
 	out := []string{}
 	vc := world.NewClock()
-	for _, nodes := range []string{"-1", "-5%", "+5", "101%", "200%", "010"} {
+	for _, nodes := range []string{"-1", "-5%", "+5", "101%", "200%", "010", "2147483647", "2147483648", "4294967297"} {
 		np, _, err := PoolFromManifest("p", []Budget{{Cron: "-", Dur: -1, Kind: "count", Mal: "nodes", Txt: nodes, RState: "nil"}})
 		if err != nil {
 			continue
